@@ -82,6 +82,7 @@ func init() {
 			return m
 		},
 		Enum: func(tier string, e *engine.Emitter) {
+			e.Emit(engine.Case{Kind: "c17race", Leg: "concurrency/race-detector", A: "v1"})
 			// the v1 API through the top-level binary: jd -v2=false FLAGS a b, then jd -v2=false -p FLAGS diff a
 			for _, fl := range []string{"", "-set", "-mset", "-set -setkeys id,t", "-setkeys id,t"} { // (id alone does not identify these members)
 				for _, a := range c17CLIDocs {
@@ -149,6 +150,9 @@ func runC17CLI(c *engine.Case) engine.Result {
 func runC17(c *engine.Case) engine.Result {
 	if c.Kind == "c17cli" {
 		return runC17CLI(c)
+	}
+	if c.Kind == "c17race" {
+		return runRacer(c.A)
 	}
 	o := impl.OptionsV1(optOf(c.Kind))
 	aV, bV := ref.MustParse(c.A), ref.MustParse(c.B)
